@@ -114,6 +114,11 @@ def catalogue(rng, tier='quick'):
         add('EqualConstantBig', [('a', w)], [('r', 1)], lambda t, i, o, ev2=ev2: P.EqualConstant(t, 'x', i['a'], ev2, o['r']))
         add('RegWideE', [('d', w), ('e', W(2, 3))], [('q', w)], lambda t, i, o: P.Reg(t, 'x', i['d'], o['q'], enable=i['e']))
         add('ConcatEmpty', [('a', 1)], [('r', wr), ('p', 1)], lambda t, i, o: (P.ConcatenateMSBF(t, 'x', [], o['r']), P.Buf(t, 'y', i['a'], o['p'])))
+        # n-ary gates whose operands have different widths (inlined as one expression in Verilog, a ladder of 2-input gates in the simulator)
+        n3 = rng.randint(3, 5); ws3 = [W(1, 8) for _ in range(n3)]; wr3 = W(1, 9)
+        for gname, gcls in (('OrMixed', P.Or), ('AndMixed', P.And), ('NorMixed', P.Nor), ('XorMixed', P.Xor)):
+            add('%s%d' % (gname, n3), [('a%d' % k, ws3[k]) for k in range(n3)], [('r', wr3)],
+                lambda t, i, o, n3=n3, gcls=gcls: gcls(t, 'x', [i['a%d' % k] for k in range(n3)], o['r']))
         # blocks with a hand-written verilogBody(): memories (elaborated into word nets by Model/VSem.v) and the UART message sequencer (a ROM)
         aw, mw = W(1, 3), W(1, 8)
         mem_ins = [('ra', aw), ('wa', aw), ('we', 1), ('wd', mw)]
